@@ -1,7 +1,7 @@
 """C04 - all validation entry points and modes agree on one verdict.
 
 For every document of the catalogue (mc/gen/docs_c04.py: the minimal valid and minimal invalid document of every
-fault class, over 18 small schemas, XSD 1.0 and 1.1; plus the documents with exactly k errors) the complete
+fault class, over 20 small schemas, XSD 1.0 and 1.1; plus the documents with exactly k errors) the complete
 product  entry point x validation mode x source kind  is executed.  The reference model is the catalogue itself:
 the verdict of each document is fixed by its construction, and the statement of the property gives the relations
 between the observations of the different entry points:
@@ -33,7 +33,7 @@ from mc.explore import procexec_c04 as PX
 
 ID = 'C04'
 TITLE = 'All validation entry points and modes agree on one verdict'
-RULE = ('every catalogue document (minimal valid / minimal invalid document of every fault class of 18 schemas, '
+RULE = ('every catalogue document (minimal valid / minimal invalid document of every fault class of 20 schemas, '
         'XSD 1.0 and 1.1, and the documents with exactly k errors, k in {0,1,2,255,256,257,511,512}) x every entry '
         'point (schema methods, package functions with a schema object / a schema path / xsi location hints, '
         'XsdElement methods, XmlDocument, console entry) x mode (strict, lax, skip) x source kind; states = '
